@@ -378,10 +378,13 @@ Definition make_local_type_names (pi : oracle) (doc : list item) (st : hmap scfg
                   (type_defs doc)).
 
 (** one declaration the printer emits: section 0–3 = the four namespaces, 4 = representatives *)
-Record decl := mk_decl {
-  dc_section : N; dc_local : str; dc_schema : str;
-  dc_body : option str     (* text of the right-hand side where it is modelled (scalars, interfaces, unions) *)
-}.
+(** right-hand side of a declaration, where it is modelled *)
+Inductive body :=
+| BNone                       (* not modelled (objects, enums, inputs, representatives) *)
+| BText (t : str)             (* scalars: the configured TypeScript type, verbatim *)
+| BUnion (members : list str). (* interfaces and unions: ts_union of type variables *)
+
+Record decl := mk_decl { dc_section : N; dc_local : str; dc_schema : str; dc_body : body }.
 
 Inductive perr := ScalarTypeNotProvided (name : str) | LocalNameMissing (name : str).
 
@@ -421,19 +424,19 @@ Section Printer.
     | KScalar =>
         match hm_get ctx_scalar_types (d_name d) with
         | None => Err (ScalarTypeNotProvided (d_name d))
-        | Some c => with_local d (fun local => [mk_decl sec local (d_name d) (Some (get_ts_type c t))])
+        | Some c => with_local d (fun local => [mk_decl sec local (d_name d) (BText (get_ts_type c t))])
         end
-    | KObject => if is_input t then Ok [] else with_local d (fun local => [mk_decl sec local (d_name d) None])
+    | KObject => if is_input t then Ok [] else with_local d (fun local => [mk_decl sec local (d_name d) BNone])
     | KInterface =>
         if is_input t then Ok []
         else with_local d (fun local =>
                [mk_decl sec local (d_name d)
-                  (Some (union_text (map (fun o => local_of (d_name o)) (interface_implementers ctx_schema (d_name d)))))])
+                  (BUnion (map (fun o => local_of (d_name o)) (interface_implementers ctx_schema (d_name d))))])
     | KUnion =>
         if is_input t then Ok []
-        else with_local d (fun local => [mk_decl sec local (d_name d) (Some (union_text (map local_of (d_items d))))])
-    | KEnum => with_local d (fun local => [mk_decl sec local (d_name d) None])
-    | KInput => if is_input t then with_local d (fun local => [mk_decl sec local (d_name d) None]) else Ok []
+        else with_local d (fun local => [mk_decl sec local (d_name d) (BUnion (map local_of (d_items d)))])
+    | KEnum => with_local d (fun local => [mk_decl sec local (d_name d) BNone])
+    | KInput => if is_input t then with_local d (fun local => [mk_decl sec local (d_name d) BNone]) else Ok []
     end.
 
   Fixpoint print_defs (sec : N) (t : target) (ds : list adef) : res perr (list decl) :=
@@ -450,7 +453,7 @@ Section Printer.
     match ds with
     | [] => Ok []
     | d :: r =>
-        match with_local d (fun local => [mk_decl 4 local (d_name d) None]) with
+        match with_local d (fun local => [mk_decl 4 local (d_name d) BNone]) with
         | Err e => Err e
         | Ok l => match print_representatives r with Ok l' => Ok (l ++ l') | Err e => Err e end
         end
